@@ -276,7 +276,9 @@ def gen_env_shared_sizer(rnd):
                        S.StructDef([M("plain", I(1)), M("plain", I(8))]),
                        S.UnionDef([{"d": 1, "t": I(1)}, {"d": 2, "t": I(4)}]),
                        S.EnumDef([1, 2, 7])])
-    ms = [M("plain", I(rnd.choice([1, 2, 4, 8])))]
+    # (a third of the sizers are SIGNED integers: the count on the wire is the same, but a decoder
+    # reads a set top bit as a negative count)
+    ms = [M("plain", I(rnd.choice([1, 2, 4, 8]), rnd.choice([0, 0, 1])))]
     if rnd.random() < 0.5:
         ms.insert(0, M("plain", I(rnd.choice([1, 4]))))
     sizer = len(ms)
